@@ -160,6 +160,17 @@ def replacesBuffer : Function → Bool
     ms.any fun m => m == .altScreenBuffer || m == .saveCursorAltScreenBuffer
   | _ => false
 
+/-! ### who may change the scroll region -/
+
+/-- functions that can change `topMargin` / `bottomMargin`: DECSTBM, the soft and the hard reset, and
+    XTWINOPS (a resize; inert while the `xtwinops` flag is off, but the model is what counts).
+    Everything else — in particular entering and leaving the alternate screen (DECSET / DECRST
+    47/1047/1049, with the reflow that follows) and save / restore cursor — leaves the region as it
+    is (`Avt.Props.C06.C06_region_persists`). -/
+def setsMargins : Function → Bool
+  | .decstbm _ _ | .decstr | .ris | .xtwinops _ _ => true
+  | _ => false
+
 /-! ### oracle -/
 
 /-- fold the command specification over the emitted functions; the flag records whether any of
@@ -197,7 +208,13 @@ def checkStep (ev : StepEv) : List Verdict :=
     if n.activeBufferType == .alternate && ev.kind.finishes then
       [check "alternate-screen-keeps-no-scrollback" true (n.buffer.sb.isEmpty)]
     else []
-  cmd ++ quiet ++ hist ++ alt
+  -- the region is state that only DECSTBM, the resets and a resize may change
+  let region : List Verdict :=
+    if !ev.funs.isEmpty && ev.funs.all (fun f => !setsMargins f) then
+      [check "region-persists" (p.topMargin != 0 || p.bottomMargin + 1 != p.rows)
+        (n.topMargin == p.topMargin && n.bottomMargin == p.bottomMargin)]
+    else []
+  cmd ++ quiet ++ hist ++ alt ++ region
 
 def checkNew (_cols _rows : Nat) (_lim : Option Nat) (_st : Vt) : List Verdict := []
 
